@@ -63,6 +63,12 @@ def run(tier, argv):
         p = vlib.run_harness(hr, ["c12mix", "-scenario", scenario, "-rounds", "25" if quick else "400"], timeout=6000, env_extra={"GORACE": "halt_on_error=0 exitcode=66"})
         err = p.stderr.decode("utf-8", "replace")
         if p.returncode not in (0, 66):
+            i = err.find("fatal error: concurrent map")
+            if i >= 0 and not (scenario == "sharedallof" and KF_ID in kf):
+                # the Go runtime itself names unsynchronised access to a map: the run is evidence, not a dead driver
+                bad.append({"what": "goroutine mix: the Go runtime aborted the process: " + err[i:i + 60].split("\n")[0], "scenario": scenario, "first_race": err[i:i + 1500]})
+                rep.notes.setdefault("mixes", []).append({"scenario": scenario, "aborted": True})
+                continue
             raise vlib.Infra("c12mix failed: " + err[-2000:])
         races = err.count("WARNING: DATA RACE")
         sm = None
@@ -80,7 +86,7 @@ def run(tier, argv):
                 i = err.find("WARNING: DATA RACE")
                 bad.append({"what": "goroutine mix: %d race reports, %d result differences" % (races, sm["diffs"]), "scenario": scenario, "first_diff": sm.get("first_diff"),
                             "first_race": err[i:i + 1200] if i >= 0 else ""})
-    rep.sample({"mix": rep.notes["mixes"][0]})
+    rep.sample({"mix": rep.notes.get("mixes", [None])[0]})
     rep.cov["evaluations"] = calls + len(scheds)
     rep.cov["distinct_nontrivial"] = len(scheds) + 4
     rep.cov["traces_validated_against_impl"] = len(scheds)
